@@ -9,6 +9,7 @@
       violated the statement (F-C47a, F-C47b), on concrete witnesses.
 -/
 import MitmVerif.Model.C47
+import MitmVerif.Model.C47_Conv
 namespace MitmVerif.Props.C47
 open MitmVerif.C47
 
@@ -380,5 +381,156 @@ example : (putF ⟨true, true⟩ (fun _ => .orig)
 example : (putF ⟨true, true⟩ (fun _ => .orig)
     (.obj [.request (some [⟨.path, [.eff 1]⟩, ⟨.port, [.fail]⟩])])).2 .reqPath = .orig := by decide
 example : reqField .reason = none ∧ respField .method = none ∧ respField .code = some .respCode := by decide
+
+
+/-! ## round 5: the statement's "malformed port or status code, malformed header list", transcribed; whole sessions -/
+
+/-- `_str_pair` accepts exactly the two-element lists of strings -/
+theorem strPair_iff (e : Elem) (a b : C35.PyStr) : strPair e = some (a, b) ↔ e = .seq [.str a, .str b] := by
+  constructor
+  · intro h
+    unfold strPair at h
+    split at h
+    · cases h; rfl
+    · cases h
+  · intro h; subst h; rfl
+
+private theorem firstFail_all (l : List Bool) : (firstFail l).all id = l.all id := by
+  induction l with
+  | nil => rfl
+  | cons b r ih => cases b <;> simp [firstFail, ih]
+
+/-- the header loop succeeds entirely iff the value is a list whose every element is a pair of encodable strings
+    (or an empty string / empty object, which iterate zero times) -/
+theorem headerOutcomes_all_ok_iff (c : Container) :
+    (headerOutcomes c).all id = true ↔
+      (∃ es, c = .list es ∧ ∀ e ∈ es, addOk e = true) ∨ c = .chars 0 ∨ c = .keys 0 := by
+  cases c with
+  | list es =>
+    simp only [headerOutcomes, List.all_cons, id, Bool.true_and, firstFail_all]
+    constructor
+    · intro h; left; exact ⟨es, rfl, by simpa using h⟩
+    · intro h
+      rcases h with ⟨es', he, h⟩ | h | h
+      · cases he; simpa using h
+      · cases h
+      · cases h
+  | chars n =>
+    by_cases hn : n = 0
+    · subst hn; simp [headerOutcomes, firstFail]
+    · simp [headerOutcomes, firstFail, hn]
+  | keys n =>
+    by_cases hn : n = 0
+    · subst hn; simp [headerOutcomes, firstFail]
+    · simp [headerOutcomes, firstFail, hn]
+  | notIterable => simp [headerOutcomes, firstFail]
+
+private theorem mkSteps_valid : ∀ (outs : List Bool) (ids : List Nat), stepsValid (mkSteps ids outs) = outs.all id := by
+  intro outs
+  induction outs with
+  | nil => intro ids; rfl
+  | cons o os ih =>
+    intro ids
+    cases o with
+    | false => simp [mkSteps, stepsValid]
+    | true => cases ids <;> simp [mkSteps, stepsValid, ih]
+
+private theorem leaves_invalid_of_mem (known : Key → Bool) : ∀ (ls : List Leaf) (l : Leaf), l ∈ ls →
+    stepsValid l.steps = false → leavesValid known ls = false := by
+  intro ls
+  induction ls with
+  | nil => intro l h; cases h
+  | cons x r ih =>
+    intro l hm hs
+    rcases List.mem_cons.mp hm with h | h
+    · subst h; simp [leavesValid, hs]
+    · simp [leavesValid, ih l h hs]
+
+private theorem tops_invalid_of_mem (k : Kind) : ∀ (ts : List Top) (t : Top), t ∈ ts → t.valid k = false →
+    topsValid k ts = false := by
+  intro ts
+  induction ts with
+  | nil => intro t h; cases h
+  | cons x r ih =>
+    intro t hm hv
+    rcases List.mem_cons.mp hm with h | h
+    · subst h; simp [topsValid, hv]
+    · simp [topsValid, ih t h hv]
+
+/-- a document whose request or response part contains a key with a failing setter step is refused and leaves the
+    flow — state and backup — exactly as it was, wherever that key stands and whatever valid parts surround it -/
+theorem failing_key_leaves_flow_unchanged (k : Kind) (σ : Flow) (tops : List Top) (ls : List Leaf) (l : Leaf)
+    (ht : Top.request (some ls) ∈ tops ∨ Top.response (some ls) ∈ tops) (hl : l ∈ ls)
+    (hs : stepsValid l.steps = false) :
+    (put k σ (.obj tops)).1 = .refused400 ∧ (put k σ (.obj tops)).2 = σ := by
+  have hinv : (Doc.obj tops).valid k = false := by
+    simp only [Doc.valid]
+    rcases ht with h | h
+    · exact tops_invalid_of_mem k tops _ h (by simp [Top.valid, leaves_invalid_of_mem _ ls l hl hs])
+    · exact tops_invalid_of_mem k tops _ h (by simp [Top.valid, leaves_invalid_of_mem _ ls l hl hs])
+  rcases put_all_or_nothing k σ (.obj tops) with ⟨hv, _, _⟩ | ⟨_, h1, h2⟩
+  · rw [hinv] at hv; cases hv
+  · exact ⟨h1, h2⟩
+
+/-- **malformed header list ⇒ flow exactly as it was**: a `headers` / `trailers` value that is not a list of pairs of
+    (encodable) strings — wrong container, an element that is not a two-element list of strings — makes the whole PUT a no-op -/
+theorem malformed_header_list_leaves_flow_unchanged (k : Kind) (σ : Flow) (tops : List Top) (ls : List Leaf)
+    (key : Key) (ids : List Nat) (c : Container)
+    (ht : Top.request (some ls) ∈ tops ∨ Top.response (some ls) ∈ tops) (hl : headersLeaf key ids c ∈ ls)
+    (hbad : ¬ ((∃ es, c = .list es ∧ ∀ e ∈ es, addOk e = true) ∨ c = .chars 0 ∨ c = .keys 0)) :
+    (put k σ (.obj tops)).1 = .refused400 ∧ (put k σ (.obj tops)).2 = σ := by
+  refine failing_key_leaves_flow_unchanged k σ tops ls _ ht hl ?_
+  have : (headerOutcomes c).all id = false := by
+    cases h : (headerOutcomes c).all id with
+    | false => rfl
+    | true => exact absurd ((headerOutcomes_all_ok_iff c).mp h) hbad
+  simp [headersLeaf, mkSteps_valid, this]
+
+/-- **malformed port or status code ⇒ flow exactly as it was**: a `port` / `code` value on which `int()` does not
+    return (null, containers, NaN, ±Infinity, text outside Python's integer grammar) makes the whole PUT a no-op -/
+theorem malformed_port_or_code_leaves_flow_unchanged (k : Kind) (σ : Flow) (tops : List Top) (ls : List Leaf)
+    (key : Key) (id : Nat) (v : Scalar)
+    (ht : Top.request (some ls) ∈ tops ∨ Top.response (some ls) ∈ tops) (hl : intLeaf key id v ∈ ls)
+    (hbad : intOk v = false) :
+    (put k σ (.obj tops)).1 = .refused400 ∧ (put k σ (.obj tops)).2 = σ := by
+  refine failing_key_leaves_flow_unchanged k σ tops ls _ ht hl ?_
+  simp [intLeaf, mkSteps_valid, hbad]
+
+/-- **whole sessions**: after any sequence of PUTs the state is the initial state followed by the effects of exactly the
+    accepted documents, in order; the backup is the initial backup if nothing was accepted, else the earlier backup or
+    the state before the first accepted document's predecessors… i.e. `σ.backup.getD` of the state at first acceptance -/
+theorem session_all_or_nothing (k : Kind) : ∀ (docs : List Doc) (σ : Flow),
+    (runSession k σ docs).cur = σ.cur ++ sessionEffects k docs ∧
+    ((∀ d ∈ docs, d.valid k = false) → runSession k σ docs = σ) := by
+  intro docs
+  induction docs with
+  | nil => intro σ; simp [runSession, sessionEffects]
+  | cons d r ih =>
+    intro σ
+    rcases put_all_or_nothing k σ d with ⟨hv, _, hf⟩ | ⟨hv, _, hf⟩
+    · obtain ⟨h1, _⟩ := ih (put k σ d).2
+      refine ⟨?_, ?_⟩
+      · simp only [runSession, sessionEffects, hv, if_true]
+        rw [h1, hf]; simp [List.append_assoc]
+      · intro hall
+        have := hall d List.mem_cons_self
+        rw [hv] at this; cases this
+    · obtain ⟨h1, h2⟩ := ih (put k σ d).2
+      refine ⟨?_, ?_⟩
+      · simp only [runSession, sessionEffects, hv]
+        rw [h1, hf]; simp
+      · intro hall
+        simp only [runSession]
+        rw [h2 (fun x hx => hall x (List.mem_cons_of_mem _ hx)), hf]
+
+/-! non-vacuity -/
+example : intOk (.float false) = false ∧ intOk .null = false ∧ intOk .bool = true ∧ intOk (.str [52, 50]) = true ∧
+    intOk (.str [97, 98, 99]) = false ∧ intOk (.str [32, 55, 32]) = true ∧ intOk (.str []) = false := by decide
+example : addOk (.seq [.str [97], .str [98]]) = true ∧ addOk (.seq [.str [97]]) = false ∧
+    addOk (.seq [.str [97], .other]) = false ∧ addOk .notSeq = false ∧ addOk (.seq [.str [97], .str [0xD800]]) = false := by decide
+example : headerOutcomes (.list [.seq [.str [97], .str [98]], .seq [.str [99]], .seq [.str [97], .str [98]]]) = [true, true, false] := by
+  decide
+example : headerOutcomes .notIterable = [true, false] ∧ headerOutcomes (.chars 0) = [true] ∧ headerOutcomes (.chars 2) = [true, false] := by
+  decide
 
 end MitmVerif.Props.C47
